@@ -95,7 +95,7 @@ CLAIMS = {
                  "colour), the Python methods call the wrapper matching the branch "
                  "condition, the cache key covers the dispatch flags, per-row scan "
                  "flags are reset unconditionally, derived RQA measures read the "
-                 "histograms only and never edit them in place. Also: the three histograms consult the same mode flags (L7), _line_dist addresses samples only by sample indices (L8), the sequential mode compares at the precision of the matrix mode (L9)."),
+                 "histograms only and never edit them in place. Also: the three histograms consult the same mode flags (L7), _line_dist addresses samples only by sample indices (L8), the sequential mode compares at the precision of the matrix mode (L9); a dispatch handed to a private helper with a constant line type and a class-level kernel table (dict / namedtuple slots) is followed slot by slot (L1)."),
         "note": "Does NOT verify the run-length algorithm itself or the measure formulas.",
         "technique": "table agreement over the Cython parse tree and path conditions over Python ast",
     },
@@ -163,17 +163,17 @@ CLAIMS = {
                  "exactly by the missing-value conjunct and guard; every kernel "
                  "links iff the scan reaches j and stores symmetrically; retarded "
                  "and advanced degree sum complementary slices; the clustering "
-                 "kernels count complete triangles over past/future pairs. Also: both relation builders consult the missing-value switch (V4); the row partition may be spelled with slices or tril/triu."),
+                 "kernels count complete triangles over past/future pairs. Also: both relation builders consult the missing-value switch (V4); the row partition may be spelled with slices or tril/triu; retarded / advanced closeness average over the strict past / future, also through a shared window helper (V5); memoised results of a VisibilityGraph are never edited in place (V6)."),
         "note": ("Does NOT decide the geometric criterion on values; a rewritten "
                  "kernel outside the analysed scan shape yields ANALYSIS-ERROR, not a verdict."),
-        "technique": "sibling kernel agreement over the Cython parse tree",
+        "technique": "sibling kernel agreement over the Cython parse tree; call-site specialisation and alias/mutation analysis over Python ast",
     },
     "C15": {
         "text": ("Clauses: memoised spectrum/twins are never edited in place and "
                  "conditionally recomputed memos are refreshed by every writer of "
                  "their sources (repeated generation does not degrade); the "
                  "twin-surrogate kernels are applicable; per-series work buffers "
-                 "are re-initialised for every series. Also: the twin machinery compares distances with a threshold of at least their precision (U5)."),
+                 "are re-initialised for every series. Also: the twin machinery compares distances with a threshold of at least their precision (U5); only methods that declare a data change to the cache edit the held input series in place - generators leave original_data alone, also through row helpers specialised per call site (U6)."),
         "note": "Does NOT decide permutation exactness, spectra or the twin transition structure.",
         "technique": "alias/mutation analysis, kernel-boundary typing, loop-carried work-array rule",
     },
